@@ -183,14 +183,15 @@ int main(int argc, char** argv) {
     case 'w': { wasmMemory* m = getMem(atoi(tok[1]), atoi(tok[2])); unsigned long a = strtoul(tok[3], NULL, 0), n = strtoul(tok[4], NULL, 0), i;
       fprintf(OUT, "%d w %lu ", step, a); for (i = a; i < a + n; i++) fprintf(OUT, "%02x", m->data[i]); fprintf(OUT, "\n"); break; }
     case 'P': { wasmMemory* m = getMem(atoi(tok[1]), atoi(tok[2])); unsigned long a = strtoul(tok[3], NULL, 0); size_t i, n = nt > 4 ? strlen(tok[4]) / 2 : 0;
-      for (i = 0; i < n; i++) { unsigned v; sscanf(tok[4] + 2 * i, "%2x", &v); m->data[a + i] = (U8)v; } fprintf(OUT, "%d P ok\n", step); break; }
+      for (i = 0; i < n; i++) { int h = tok[4][2 * i], l = tok[4][2 * i + 1]; h = h <= '9' ? h - '0' : (h | 32) - 'a' + 10; l = l <= '9' ? l - '0' : (l | 32) - 'a' + 10; m->data[a + i] = (U8)(h * 16 + l); } fprintf(OUT, "%d P ok\n", step); break; }
     case 't': fprintf(OUT, "%d t n=%lu h=0x%llx [%s]\n", step, traceN, traceH, traceLen ? traceBuf : "");
       traceN = 0; traceH = W2C2_LL(0xcbf29ce484222325U); traceLen = 0; traceItems = 0; traceBuf[0] = 0; break;
     case 'T': { wasmTable* t = getTbl(atoi(tok[1]), atoi(tok[2])); U32 i; fprintf(OUT, "%d T size=%u ", step, t->size);
       for (i = 0; i < t->size; i++) fputc(t->data[i] ? '1' : '0', OUT); fprintf(OUT, "\n"); break; }
     case 'G': fprintf(OUT, "%d G 0x%llx\n", step, getGlobal(atoi(tok[1]))); break;
     case 'k': { wasmMemory* m = getMem(atoi(tok[1]), atoi(tok[2])); unsigned long a = strtoul(tok[3], NULL, 0), n = strtoul(tok[4], NULL, 0), i; U32 c = 0xffffffffu; int b;
-      for (i = a; i < a + n; i++) { c ^= m->data[i]; for (b = 0; b < 8; b++) c = (c >> 1) ^ (0xedb88320u & (0u - (c & 1u))); }
+      static U32 crcT[256]; if (!crcT[1]) { U32 t_, j_; for (j_ = 0; j_ < 256; j_++) { t_ = j_; for (b = 0; b < 8; b++) t_ = (t_ >> 1) ^ (0xedb88320u & (0u - (t_ & 1u))); crcT[j_] = t_; } }
+      for (i = a; i < a + n; i++) c = crcT[(c ^ m->data[i]) & 0xff] ^ (c >> 8);
       fprintf(OUT, "%d k 0x%x\n", step, c ^ 0xffffffffu); break; }
 @WASICASES@
     default: fprintf(OUT, "%d ?\n", step);
